@@ -21,6 +21,7 @@ import (
 	"github.com/cockroachdb/errors"
 
 	"github.com/lni/dragonboat/v4/config"
+	"github.com/lni/dragonboat/v4/internal/verifhook"
 	pb "github.com/lni/dragonboat/v4/raftpb"
 	sm "github.com/lni/dragonboat/v4/statemachine"
 )
@@ -148,6 +149,7 @@ func (ds *NativeSM) Loaded() {
 
 // Close closes the underlying user state machine and set the destroyed flag.
 func (ds *NativeSM) Close() error {
+	verifhook.Point(verifhook.NativeSMClose, ds.config.ShardID, ds.config.ReplicaID)
 	if err := ds.sm.Close(); err != nil {
 		return err
 	}
